@@ -5,16 +5,27 @@ from fractions import Fraction
 _cache = {}
 
 
+def make_cone(Warr, with_alpha=False):
+    """OrderingCone(Warr) through the REAL constructor (whatever it sets up is set up); when the alpha constants are not needed
+    the per-facet SOCPs are skipped by stubbing get_alpha_vec for the duration of the call (alpha is then None)"""
+    import vopy.ordering_cone as ocm
+    if with_alpha:
+        return ocm.OrderingCone(Warr)
+    saved = ocm.get_alpha_vec
+    ocm.get_alpha_vec = lambda W_: None
+    try:
+        oc = ocm.OrderingCone(Warr)
+    finally:
+        ocm.get_alpha_vec = saved
+    return oc
+
+
 def order_from_W(W, with_alpha=False):
     from vopy.order import PolyhedralConeOrder
     from vopy.ordering_cone import OrderingCone
     key = (repr(np.asarray(W, dtype=float).tolist()), with_alpha)
     if key not in _cache:
-        if with_alpha:
-            oc = OrderingCone(np.array(W, dtype=float))
-        else:
-            oc = OrderingCone.__new__(OrderingCone)
-            oc.W = np.array(W, dtype=float); oc.dim = oc.W.shape[1]; oc.alpha = None
+        oc = make_cone(np.array(W, dtype=float), with_alpha)
         _cache[key] = PolyhedralConeOrder(oc)
     return _cache[key]
 
